@@ -69,3 +69,24 @@ geo!(c15_h13_geo_y_z9, cover_y, 9);
 geo!(c15_h13_geo_y_z16, cover_y, 16);
 geo!(c15_h13_geo_y_z24, cover_y, 24);
 geo!(c15_h13_geo_y_z31, cover_y, 31);
+
+// C09 / C19: GeoBBox::check is the gate filter_bbox and `convert --bbox` put in front of intersect_geo_bbox(..).unwrap():
+// it must accept EXACTLY the boxes the geo harnesses above assume (every f64 bit pattern, incl. NaN and the infinities),
+// otherwise an invalid argument reaches the unwrap (panic) or a valid one is refused.
+#[kani::proof]
+#[kani::unwind(4)]
+#[kani::stub(std::fmt::format, crate::verif_kani::stubs::fmt_format)]
+#[kani::stub(std::backtrace::Backtrace::capture, crate::verif_kani::stubs::backtrace_capture)]
+fn c19_geo_check_exact() {
+	let w: f64 = kani::any();
+	let s: f64 = kani::any();
+	let e: f64 = kani::any();
+	let n: f64 = kani::any();
+	let g = GeoBBox(w, s, e, n);
+	let accepted = ok(g.check()).is_some();
+	let valid = w >= -180.0 && s >= -90.0 && e <= 180.0 && n <= 90.0 && w <= e && s <= n;
+	assert!(accepted == valid, "GeoBBox::check does not accept exactly the valid boxes");
+	kani::cover!(accepted);
+	kani::cover!(!accepted && w.is_nan());
+	kani::cover!(!accepted && !w.is_nan() && !s.is_nan() && !e.is_nan() && !n.is_nan());
+}
